@@ -389,7 +389,16 @@ where
         let reset_location = LocationAndType::StorageReset(address);
         let mut reset_version = ReadVersion::Storage;
         let mut reset_txid = None;
-        if let Some(writes) = self.mv_memory.get(&reset_location) &&
+        // Every slot of an account must be resolved against the same reset marker within one
+        // incarnation: the read set keeps a single version per location, so a marker published or
+        // removed between two slot reads would otherwise replace the version the first slot was
+        // resolved with, and validation would accept a slot value that ignored the marker.
+        if let Some(recorded) = self.read_set.get(&reset_location) {
+            if let ReadVersion::MvMemory(version) = recorded {
+                reset_txid = Some(version.txid);
+                reset_version = ReadVersion::MvMemory(version.clone());
+            }
+        } else if let Some(writes) = self.mv_memory.get(&reset_location) &&
             let Some((&txid, entry)) = writes.range(..self.version.txid).next_back() &&
             matches!(entry.data, MemoryValue::StorageReset)
         {
